@@ -11,6 +11,10 @@ CHECKS = {}
 def add(pid, engine, technique, text, note, category='model_checking'):
     CHECKS[pid] = dict(engine=engine, technique=technique, text=text, note=note, category=category)
 
+def extra(pid, t):
+    """additions made after the seeded rounds: appended to the level text"""
+    CHECKS[pid]['text'] += ' ' + t
+
 exec(open(os.path.join(V, 'tools', 'checks_table.py')).read())
 
 titles = {}
